@@ -207,14 +207,77 @@ def check_hand(acc):
         else: acc.violation(f"{g}:scheduling-raised:hand-fl{call_fl}", dict(hand="once_fl", call_fl=call_fl, group=g), "UpblkCyclicError", repr(ex)[:200])
 
 
+def hand_transient():
+  """a false loop in which a block of the cyclic group indexes a list with the sum of two wires that always add up to 4 in a
+  settled design; during the iteration of the group the block can see the new value of one and the stale value of the other"""
+  from pymtl3 import Component, InPort, Wire, OutPort, update
+
+  class Transient(Component):
+    def construct(s):
+      s.off = InPort(4)
+      s.tin = [InPort(8) for _ in range(5)]
+      s.off_w = Wire(4)
+      s.table = [Wire(8) for _ in range(5)]
+      s.idx = Wire(4)
+      s.out = Wire(8)
+      s.res = OutPort(8)
+
+      @update
+      def up_p():
+        s.off_w @= s.off
+
+      @update
+      def up_t():
+        for i in range(5):
+          s.table[i] @= s.tin[i]
+
+      @update
+      def up_gen():                       # two independent halves: a false loop with up_a_lookup
+        s.idx @= 4 - s.off_w
+        s.res @= s.out + 1
+
+      @update
+      def up_a_lookup():
+        s.out @= s.table[s.idx + s.off_w]
+  return Transient
+
+
+def check_transient(acc):
+  """every sequence of three values of off in 0..4: the evaluation returns, with res = tin[4] + 1"""
+  import itertools
+  from pymtl3.passes.PassGroups import DefaultPassGroup
+  from pymtl3.passes.mamba.PassGroups import Mamba2020
+  TIN = (0x10, 0x20, 0x30, 0x40, 0x50)
+  for g, mk in (("dynamic", lambda: DefaultPassGroup()), ("mamba", lambda: Mamba2020(print_line_trace=False))):
+    bad = None
+    for seq in itertools.product(range(5), repeat=3):
+      t = hand_transient()(); t.elaborate(); t.apply(mk())
+      for i in range(5): t.tin[i] @= TIN[i]
+      acc.count("executions"); acc.count("hand_runs")
+      try:
+        for off in seq:
+          t.off @= off
+          t.sim_eval_combinational()
+          acc.count("evaluations")
+          if int(t.res) != TIN[4] + 1: bad = (seq, "res", int(t.res)); break
+      except Exception as ex:
+        bad = (seq, "raised", f"{type(ex).__name__}: {str(ex)[:80]}")
+      if bad: break
+    if bad:
+      acc.violation(f"{g}:false-loop-sees-transient-input-combination:{bad[1]}", dict(hand="transient", group=g), f"res = {TIN[4] + 1} after every evaluation", str(bad[2]), f"off sequence {bad[0]}")
+
+
 def shards(tier):
-  return list(range(len(items()))) + ["hand"]
+  return list(range(len(items()))) + ["hand", "transient"]
 
 
 def run_shard(shard, tier, seed):
   acc = Acc()
   if shard == "hand":
     check_hand(acc)
+    return acc
+  if shard == "transient":
+    check_transient(acc)
     return acc
   name, d, expect = items()[shard]
   check_design(name, d, expect, tier, acc)
@@ -224,6 +287,9 @@ def run_shard(shard, tier, seed):
 
 def replay(case):
   acc = Acc()
+  if case.get("hand") == "transient":
+    check_transient(acc)
+    return [(v["sig"], v["expected"], v["observed"], v["msg"]) for v in acc.violations if v["case"] == case]
   if case.get("hand"):
     check_hand(acc)
     return [(v["sig"], v["expected"], v["observed"], v["msg"]) for v in acc.violations if v["case"] == case]
